@@ -56,8 +56,11 @@ def configs(tier, seed):
         hists = [h for h in hists if not (len(pat) == 2 and "ins_old" in h) and sum(1 for o in h if o == "elev") <= (1 if p >= 3 else 2)]
         if tier == "quick":
             hists = hists[(i + seed) % 3::3]
+            if p <= 2:
+                # two elevations and an insertion afterwards: a degree drop of 2 is removable while an interior knot has lower multiplicity
+                hists.append(("elev", "elev", "ins_new") if (i + seed) % 2 or len(pat) == 2 else ("elev", "elev", "ins_old"))
         for k, h in enumerate(hists):
-            order = ORDERS[(i + k + seed) % len(ORDERS)]
+            order = ORDERS[(i + k + seed) % len(ORDERS)] if len(h) < 3 or tier != "quick" else ("degree_clean", "knot_clean")
             cfgs.append(dict(name=f"minimal p={p} mults={pat} hist={'+'.join(h)} then {'+'.join(order)}", kind="minimal", hist=list(h),
                              order=list(order), **base))
         if p <= 2:
